@@ -119,6 +119,11 @@ FAULTS = {
     "class-member-untyped": ["class C3 {", "\tvv", "\tconstructor(self) {}", "}"],
     "class-member-unknown-type": ["class C4 {", "\tvv: Zork", "\tconstructor(self) {}", "}"],
     "class-method-wrong-return": ["class C5 {", "\tconstructor(self) {}", "\tfn m5(self) -> int {", '\t\treturn "x"', "\t}", "}"],
+    "class-method-missing-return": ["class C7 {", "\tconstructor(self) {}", "\tfn m7(self) -> int {", "\t\tq7 = 1", "\t}", "}"],
+    "class-method-missing-return-on-path": ["class C8 {", "\tconstructor(self) {}", "\tfn m8(self, c: bool) -> int {", "\t\tif c {", "\t\t\treturn 1", "\t\t}", "\t}", "}"],
+    "class-method-return-in-loop-only": ["class C9 {", "\tconstructor(self) {}", "\tfn m9(self) -> int {", "\t\tfrom 0 to 1 {", "\t\t\treturn 1", "\t\t}", "\t}", "}"],
+    "class-method-value-in-void": ["class C10 {", "\tconstructor(self) {}", "\tfn m10(self) {", "\t\treturn 1", "\t}", "}"],
+    "class-ctor-returns-value": ["class C11 {", "\tconstructor(self) {", "\t\treturn 1", "\t}", "}"],
     "class-field-init-wrong-type": ["class C6 {", "\tvv: int", "\tconstructor(self) {", '\t\tself.vv = "x"', "\t}", "}"],
     "break-outside-loop": ["break"],
     "continue-outside-loop": ["continue"],
